@@ -5,6 +5,9 @@
 #include <occa/internal/core/memory.hpp>
 #include <occa/internal/core/memoryPool.hpp>
 #include <occa/internal/utils/sys.hpp>
+#ifdef LIBOCCA_OCCA_VERIF
+#include <occa/internal/verif.hpp>
+#endif
 
 namespace occa {
   memoryPool::memoryPool() :
@@ -49,6 +52,9 @@ namespace occa {
       return;
     }
     modeMemoryPool->removeMemoryPoolRef(this);
+#ifdef LIBOCCA_OCCA_VERIF
+    verif::yield(verif::ptAfterRemoveMemoryPoolRef);
+#endif
     if (modeMemoryPool->modeMemoryPool_t::needsFree()) {
       delete modeMemoryPool;
       modeMemoryPool = NULL;
